@@ -166,7 +166,19 @@ private:
       if(!WrapperType::allowTargetResize)
         throw std::runtime_error("Non-matching dimensions in SU_vector assignment");
       //can resize
-      if(isinit)
+      if(!proxy.mayStealArg1() && !proxy.mayStealArg2()){
+        //obtain the new storage before giving up the old, so that this vector
+        //is untouched if the allocation fails
+        double* new_components;
+        unsigned char new_offset;
+        alloc_aligned(proxy.suv1.dim,proxy.suv1.size,new_components,new_offset);
+        if(isinit)
+          deallocate_mem();
+        components=new_components;
+        ptr_offset=new_offset;
+        isinit=true;
+      }
+      else if(isinit)
         deallocate_mem();
       dim=proxy.suv1.dim;
       size=proxy.suv1.size;
@@ -189,10 +201,6 @@ private:
           robbed=const_cast<SU_vector*>(&proxy.suv2);
           robbed->isinit=false; //complete the theft
         }
-      }
-      else{
-        alloc_aligned(dim,size,components,ptr_offset);
-        isinit=true;
       }
     }
     //evaluate in place
